@@ -2,6 +2,7 @@ package props
 
 import (
 	"crypto/ecdsa"
+	"crypto/rsa"
 	"encoding/asn1"
 	"fmt"
 	"math/big"
@@ -417,6 +418,30 @@ func genC03Case(t *rapid.T) c03Case {
 		i := rapid.IntRange(0, len(slots)-1).Draw(t, "sigslot")
 		x := slots[i].Get()
 		nb, name := rewriteSig(t, c.VKeys[i], x.Bytes)
+		if km := c.VKeys[i]; km.Family() == "rsa" && rapid.Bool().Draw(t, "pss-salt") {
+			// a PSS signature over the right bytes with the right key and hash but another salt
+			// length than PSnnn prescribes: not a valid PSnnn signature (RFC 8230 2)
+			env, err := refcose.ParseEnv(c.Kind, wc.Wire)
+			if err != nil {
+				panic(err)
+			}
+			payload, ok := env.PayloadBytes()
+			if !ok {
+				payload = wc.Spec.Payload
+			}
+			var tbs []byte
+			if c.Kind == refcose.KSign {
+				tbs = refcose.SigStructure(env.ProtContent(), env.Sigs[i].ProtContent(), c.ext(), payload)
+			} else {
+				tbs = refcose.SigStructure1(env.ProtContent(), c.ext(), payload)
+			}
+			hl := refcose.HashFor(km.Alg).Size()
+			salt := rapid.SampledFrom([]int{0, 1, 20, hl - 1, hl + 1, 2 * hl, -1}).Draw(t, "saltlen")
+			if salt == -1 {
+				salt = rsa.PSSSaltLengthAuto // the largest the key admits: crypto/rsa's own default
+			}
+			nb, name = refcose.SignPSSSalt(km.Alg, km, tbs, salt), "sig/pss-foreign-salt-length"
+		}
 		x.Bytes = nb
 		c.Wire = root.Enc()
 		c.Muts = []gen.Mutation{{Op: name, Path: slots[i].Path}}
